@@ -458,7 +458,14 @@ class Abstraction(object):
                 return ["goesOn"]
             if exited and terminal:
                 if "FAILED" in st["ends"]:
-                    raise Unsupported("join-failure")      # the last result arrived, then a join's ResultSelector / ResultPath failed
+                    # the last result arrived, then a join's ResultSelector / ResultPath failed and nothing handled it
+                    h = st["hist"]
+                    left = any(t.endswith("StateExited") and n == self.info[eid]["name"]
+                               and not (j > 0 and h[j - 1][0] == t[:-len("Exited")] + "Failed") for j, (t, n, _) in enumerate(h))
+                    if left:
+                        raise Unsupported("join-failure-above")
+                    err = ([e for t, n, e in h if t == "ExecutionFailed"] or ["?join"])[0]
+                    return ["doneFail", 1, self.err(err), ["u"] * (self.depth_of(eid) + 1)]
                 return ["done", 1, self.ups(eid)]
             failed = [e for t, n, e in st["hist"] if t == "ExecutionFailed"]
             if failed:
@@ -479,30 +486,51 @@ class Abstraction(object):
                 return ["caughtOn"]
             return ["goesOn"]
         if exited or not (isinstance(arrived, dict) and arrived.get("Error")):
-            self.check_join_failure(st, eid, b, a)
+            if self.check_join_failure(st, eid, b, a):
+                err = self.join_error(st, eid, a)
+                return ["doneFail", 1, self.err(err), self.handled(st, eid, b, a, eng, err)]
             return ["done", 1, self.ups(eid)]
         return ["fail", self.err(arrived.get("Error")), self.handled(st, eid, b, a, eng, arrived.get("Error"))]
 
     def check_join_failure(self, st, eid, b, a):
         """a join whose last result arrived in this step but whose state was not left: its ResultSelector / ResultPath /
-        the size limit failed the state after the join — outside the model's alphabet"""
+        the size limit failed the state after the join.  True: the join of the result's own attempt (the model's `doneFail`);
+        a join further up: outside the model's alphabet"""
         cur = eid
         while cur is not None:
             ra = (a["bm"] or {}).get(cur)
             rb = (b["bm"] or {}).get(cur)
             if ra is None or ra.get("terminated") is not None or not all(is_data(x) for x in ra["results"]):
-                return
+                return False
             if rb is not None and all(is_data(x) for x in rb["results"]):
-                return
+                return False
             name = self.info[cur]["name"]
             h = st["hist"]
             if not any(t.endswith("StateExited") and n == name and not (j > 0 and h[j - 1][0] == t[:-len("Exited")] + "Failed")
                        for j, (t, n, _) in enumerate(h)):
-                raise Unsupported("join-failure")
+                if cur == eid:
+                    return True
+                raise Unsupported("join-failure-above")
             par = self.info[cur]["parent"]
             if par is None or not self.slot_changed_to_data(b, a, par[0], par[1]):
-                return
+                return False
             cur = par[0]
+        return False
+
+    def join_error(self, st, eid, a):
+        """the error a failing join reported: what reached the enclosing attempt / ended the execution (if its own Retry or
+        Catch dealt with it the name is not visible and does not matter)"""
+        par = self.info[eid]["parent"]
+        if par is not None:
+            ra = (a["bm"] or {}).get(par[0])
+            if ra is not None:
+                x = ra["results"][par[1]]
+                if isinstance(x, dict) and x.get("Error"):
+                    return x["Error"]
+        for t, n, e in st["hist"]:
+            if t == "ExecutionFailed" and e:
+                return e
+        return "?join"
 
     def same_thread(self, stack, trig):
         return bool(stack) and "Index" in stack[-1] and (stack[-1].get("ID"), stack[-1].get("Index")) == trig
@@ -656,7 +684,7 @@ def compare(ab, answer):
             m_acc = not any(o[0] in ("drop", "refused") for o in outs[:1]) if outs else True
             if m_acc != e["accepted"]:
                 return [(g["step"], "dropped-or-accepted", {"accepted": m_acc, "outs": outs}, {"accepted": e["accepted"]})]
-        m_failed = sorted([[o[1], o[2]] for o in outs if o[0] == "fail"] + [[o[1], "tt"] for o in outs if o[0] == "aborted"], key=str)
+        m_failed = sorted([[o[1], o[2]] for o in outs if o[0] in ("fail", "joinFailed")] + [[o[1], "tt"] for o in outs if o[0] == "aborted"], key=str)
         if e.get("partial"):
             # the engine deleted its join state in this step: only the endings and the deletion itself are visible
             if state["meta"] or (state["ended"] is not None) != e["state"]["ended"]:
